@@ -21,6 +21,7 @@ var (
 	GateHook     func(site, kind string)
 	NowHook      func() time.Time
 	TornHook     func(site string) bool
+	SelectHook   func(site string, n int) []int
 	NoYield      int // >0: Yield/Hot are passed through (inside once.Do)
 )
 
@@ -40,6 +41,21 @@ func Gate(site, kind string) {
 	if h := GateHook; h != nil {
 		h(site, kind)
 	}
+}
+
+// SelectOrder returns the order in which the communication cases of a select are polled before the
+// select itself runs (R7b). Without a hook: declaration order.
+func SelectOrder(site string, n int) []int {
+	if h := SelectHook; h != nil {
+		if o := h(site, n); len(o) == n {
+			return o
+		}
+	}
+	o := make([]int, n)
+	for i := range o {
+		o[i] = i
+	}
+	return o
 }
 
 func Now() time.Time {
